@@ -330,6 +330,25 @@ theorem follow_join_kth_line_eq_batch_prefix {O : Oracles} {qy : Query} {q : Agg
           hasFailed (runBatch O qy joined [asFile pre] none) = false)) :=
   follow_join_kth_line hq hlim joined idx hidx pre l hf hb hex
 
+/-- the hypotheses of `follow_join_kth_line_eq_batch_prefix` hold together on the D61 input — `SELECT COUNT(*) FROM a INNER
+JOIN b ON a.k = b.k`, a joined file with two rows of key 1, one input line with key 1 (k = 1: a line with TWO join
+partners) — and its conclusion there: the answer for the line carries the table `2`, which is what the batch run prints.
+(Follow mode over a JOIN exists at the library API only: `FollowFileExecutor::execute` answers `JoinNotSupported`, see
+`Model/PipelineFollow.lean` `followStatement`.) -/
+example :
+    d61Query.stmt = .aggregate exCountQ ∧ exCountQ.limit = none ∧ joinOutcome d61Query d61Joined = .ok d61Index ∧
+    (∃ losf esf, feedLines {} d61Query d61Index true ([] ++ [d61Line]) {} = (losf, .ok esf)) ∧
+    hasFailed (runBatch {} d61Query d61Joined [asFile ([] ++ [d61Line])] none) = false ∧
+    KeysExact (lineKeys {} d61Query exCountQ d61Index ([] ++ [d61Line])) ∧
+    (feedLines {} d61Query d61Index true ([] ++ [d61Line]) {}).1.map (·.result) = [some { columns := ["count0"], rows := [[.int 2]] }] ∧
+    (runBatch {} d61Query d61Joined [asFile ([] ++ [d61Line])] none).printed = ["count0: 2"] := by
+  refine ⟨rfl, rfl, rfl, ⟨_, _, rfl⟩, by decide, ?_, rfl, by decide⟩
+  intro a ha b hb _
+  have hk : lineKeys {} d61Query exCountQ d61Index ([] ++ [d61Line]) = [[.null], [.null]] := rfl
+  rw [hk] at ha hb
+  simp only [List.mem_cons, List.mem_nil_iff, or_false, or_self] at ha hb
+  rw [ha, hb]
+
 /-! ### negation witness of the open finding of this property (D60), and the regression witness of the repaired D61 -/
 
 /-- **D60** (why "exact keys" cannot be dropped from `follow_eq_batch_prefix`): GROUP BY over the REAL keys `0.0` and
